@@ -106,10 +106,7 @@ func genCase(t *rapid.T) Case {
 		for i := 0; i < nd; i++ {
 			doc, info := gen.Spec(t, gen.SpecOpts{MaxPaths: 2})
 			if rapid.Bool().Draw(t, "breakdoc") {
-				name := gen.PickUniform(t, gen.RuleEdits, "docedit")
-				if name != "circularAncestry" {
-					gen.ApplyRuleEdit(t, name, doc, info)
-				}
+				gen.ApplyRuleEdit(t, gen.PickUniform(t, gen.StableRuleEdits(), "docedit"), doc, info)
 			}
 			c.Docs = append(c.Docs, gen.Text(doc))
 		}
